@@ -112,6 +112,10 @@ func Main(args []string) {
 		os.Exit(2)
 	}
 	prop := args[0]
+	if prop == "gen" {
+		genMain(args[1:])
+		return
+	}
 	tier, out, replay := "quick", "", ""
 	var seed uint64 = 1
 	for i := 1; i < len(args); i++ {
@@ -148,4 +152,35 @@ func Main(args []string) {
 		}
 	}
 	fmt.Printf("hx %s: evaluations=%d distinct=%d corr=%d failures=%d\n", prop, cx.Res.Evaluations, cx.Res.Distinct, cx.Res.CorrChecked, len(cx.Res.Failures))
+}
+
+// genMain: `hx gen -table NAME -o FILE` regenerates one model parameter file from /repo's source.
+func genMain(args []string) {
+	table, out := "", ""
+	for i := 0; i < len(args); i++ {
+		switch args[i] {
+		case "-table":
+			i++
+			table = args[i]
+		case "-o":
+			i++
+			out = args[i]
+		}
+	}
+	g, ok := Gens[table]
+	if !ok {
+		fmt.Fprintln(os.Stderr, "unknown table", table)
+		os.Exit(2)
+	}
+	f, err := os.Create(out)
+	if err != nil {
+		fmt.Fprintln(os.Stderr, err)
+		os.Exit(2)
+	}
+	if err := g(f); err != nil {
+		f.Close()
+		fmt.Fprintln(os.Stderr, "gen", table+":", err)
+		os.Exit(1)
+	}
+	f.Close()
 }
